@@ -137,7 +137,13 @@ func (r *Run) add(o Obligation) {
 // anchor constructs the property rests on are gone.
 func (r *Run) Floor(rule, what string, count, min int) {
 	r.floors = append(r.floors, floor{rule, what, count, min})
-	r.Check(rule, "floor: "+what, "", count >= min, fmt.Sprintf("%d instances found, confirmed floor %d", count, min))
+	for _, o := range r.obs {
+		if o.Rule == rule && o.Verdict == "undecided" {
+			// the rule already said it cannot decide some instances: the count is not meaningful
+			return
+		}
+	}
+	r.Check(rule, "floor: "+what, "", count >= min, fmt.Sprintf("%d instances found, confirmed floor %d (floors are set well below today's counts; falling under one means the rule has lost the constructs it anchors on)", count, min))
 }
 
 // Analysed counts units looked at (functions, cases, call sites, paths ...).
